@@ -227,6 +227,19 @@ func VerifC07_StompSub() {
 	}
 	verifAssert(tr.Unsubscribe() == nil, "unsubscribe")
 	verifAssert(!tr.IsSubscribed(), "not subscribed afterwards")
+	// a message published after Unsubscribe returned: the broker still delivers it only if it has
+	// not processed the UNSUBSCRIBE yet, i.e. if Unsubscribe returned before the broker's receipt
+	before := len(log)
+	if !verifStomp.unsub {
+		select {
+		case in <- &stomp.Message{Body: verifScopeFrame(pf, "op", "late", "v")}:
+			verifReach("broker-still-subscribed")
+		default:
+		}
+	}
+	verifYield("let the subscriber run")
+	verifYield("let the subscriber run")
+	verifAssert(len(log) == before, "nothing published after Unsubscribe returned reaches the handler")
 	_ = bytes.MinRead
 	verifReach("end")
 }
